@@ -109,20 +109,28 @@ fn collapse_constant_condition(sexp: Rc<SExp>) -> (bool, Rc<SExp>) {
 // specific: (a (q 1 . x) _) => (q . x)
 // classic optimizer: (a (op SEXP) ENV) => (op (a SEXP ENV)) <- wip
 // classic optimizer: (a (q SEXP) 1) => SEXP
+fn is_quoted_expression(sexp: Rc<SExp>) -> bool {
+    NodeSel::Cons(AtomValue::Here(&[1]), ThisNode)
+        .select_nodes(sexp)
+        .is_ok()
+}
+
 pub fn remove_double_apply(mut sexp: Rc<SExp>, spine: bool) -> (bool, Rc<SExp>) {
     // Don't descend into quoted expressions.
-    if spine {
-        if let Ok(NodeSel::Cons(_, _)) =
-            NodeSel::Cons(AtomValue::Here(&[1]), ThisNode).select_nodes(sexp.clone())
-        {
-            return (false, sexp);
-        }
+    if spine && is_quoted_expression(sexp.clone()) {
+        return (false, sexp);
     }
 
     let mut any_transformation = true;
     let mut was_transformed = false;
 
     while any_transformation {
+        // A transformation below can leave a quoted expression behind
+        // ((a (q 1 . x) _) => (q . x)): its data is not code either.
+        if spine && is_quoted_expression(sexp.clone()) {
+            break;
+        }
+
         if let SExp::Cons(l, a, b) = sexp.borrow() {
             // These transformations play on each other but finalize together.
             let (a_changed, new_a) = remove_double_apply(a.clone(), true);
